@@ -25,17 +25,38 @@ import (
 )
 
 type planEntry struct {
-	Routine string `json:"routine"` // short symbol name, e.g. sealAsm
-	Group   string `json:"group"`   // traces of one group must be identical
-	Label   string `json:"label"`   // what varies (for reports)
+	Routine    string   `json:"routine"`     // short symbol name, e.g. sealAsm
+	Group      string   `json:"group"`       // traces of one group must be identical
+	Label      string   `json:"label"`       // what varies (for reports)
+	RangeNames []string `json:"range_names"` // -bounds: names of the ranges the child announces before this call
 }
 
 type memOp struct {
-	disp         int64
-	base, index  string
-	scale        uint64
-	ripRel       bool
-	vectorIndex  bool
+	disp        int64
+	base, index string
+	scale       uint64
+	ripRel      bool
+	vectorIndex bool
+	size        int  // bytes accessed (-bounds); 1 when the instruction is not in the size table (only the first byte is judged)
+	known       bool // size comes from the table
+	elem        int  // element size of a masked vector access
+	mask        int  // opmask register number of a masked access, -1 if none
+}
+
+type memRange struct {
+	addr, n uint64
+	name    string
+}
+
+type boundsViolation struct {
+	Routine string `json:"routine"`
+	Offset  uint64 `json:"offset"`
+	Insn    string `json:"instruction"`
+	Addr    uint64 `json:"address"`
+	Size    int    `json:"size"`
+	Where   string `json:"where"`
+	Label   string `json:"label"`
+	Call    int    `json:"call"`
 }
 
 type insn struct {
@@ -121,6 +142,11 @@ func parseObjdump(bin string, s *symInfo) error {
 				if strings.HasPrefix(op.index, "xmm") || strings.HasPrefix(op.index, "ymm") || strings.HasPrefix(op.index, "zmm") {
 					op.vectorIndex = true
 				}
+				op.size, op.elem, op.known = accessSize(mn[0], ops)
+				op.mask = -1
+				if k := maskRe.FindStringSubmatch(ops); k != nil {
+					op.mask = int(k[1][0] - '0')
+				}
 				in.mem = append(in.mem, op)
 			}
 		}
@@ -130,6 +156,114 @@ func parseObjdump(bin string, s *symInfo) error {
 		return fmt.Errorf("objdump produced no instructions for %s", s.name)
 	}
 	return nil
+}
+
+var (
+	maskRe = regexp.MustCompile(`\{%k([0-7])\}`)
+	vregRe = regexp.MustCompile(`%([xyz])mm[0-9]+`)
+	gprRe  = regexp.MustCompile(`%(r[a-d]x|r[sd]i|r[sb]p|r[0-9]+|e[a-d]x|e[sd]i|e[sb]p|r[0-9]+d|[a-d]x|[sd]i|[sb]p|r[0-9]+w|[a-d]l|[a-d]h|[sd]il|[sb]pl|r[0-9]+b)\b`)
+)
+
+// accessSize returns the number of bytes the memory operand of the instruction covers (and the element size for masked vector
+// moves). Only the forms that occur in the sm4 assembly are tabulated; anything else is reported as not known (1 byte judged).
+func accessSize(mn, ops string) (size, elem int, known bool) {
+	// strip memory operands so that address registers are not mistaken for data registers
+	data := memRe.ReplaceAllString(ops, "")
+	vec := 0
+	for _, m := range vregRe.FindAllStringSubmatch(data, -1) {
+		w := map[string]int{"x": 16, "y": 32, "z": 64}[m[1]]
+		if w > vec {
+			vec = w
+		}
+	}
+	switch {
+	case strings.HasPrefix(mn, "vbroadcasti32x2"), strings.HasPrefix(mn, "vbroadcastf32x2"):
+		return 8, 4, true
+	case strings.HasPrefix(mn, "vbroadcasti32x4"), strings.HasPrefix(mn, "vbroadcastf32x4"), strings.HasPrefix(mn, "vbroadcasti64x2"), strings.HasPrefix(mn, "vbroadcasti128"):
+		return 16, 4, true
+	case strings.HasPrefix(mn, "vbroadcasti32x8"), strings.HasPrefix(mn, "vbroadcasti64x4"):
+		return 32, 4, true
+	case mn == "vpbroadcastd" || mn == "vbroadcastss" || mn == "movd" || mn == "vmovd":
+		return 4, 4, true
+	case mn == "vpbroadcastq" || mn == "movq" || mn == "vmovq":
+		return 8, 8, true
+	case strings.HasPrefix(mn, "vmovdq") || strings.HasPrefix(mn, "vmovup") || strings.HasPrefix(mn, "vmovap") || mn == "movdqu" || mn == "movdqa" || mn == "movups" || mn == "movaps":
+		if vec == 0 {
+			return 1, 1, false
+		}
+		e := 1
+		switch {
+		case strings.HasSuffix(mn, "64"):
+			e = 8
+		case strings.HasSuffix(mn, "32"), strings.HasSuffix(mn, "ps"):
+			e = 4
+		case strings.HasSuffix(mn, "16"):
+			e = 2
+		}
+		return vec, e, true
+	}
+	if vec != 0 && strings.HasPrefix(mn, "v") {
+		// a vector arithmetic instruction with a full-width memory source (embedded broadcasts are not used by this code)
+		if strings.Contains(ops, "{1to") {
+			return 1, 1, false
+		}
+		return vec, 1, true
+	}
+	for _, base := range []string{"mov", "xor", "add", "sub", "and", "or", "cmp", "test", "adc", "sbb", "inc", "dec", "not", "neg", "xchg", "bswap", "shl", "shr", "rol", "ror", "movzb", "movzw", "movsb", "movsw"} {
+		if !strings.HasPrefix(mn, base) {
+			continue
+		}
+		suf := strings.TrimPrefix(mn, base)
+		if strings.HasPrefix(base, "movz") || strings.HasPrefix(base, "movs") {
+			if strings.HasSuffix(base, "b") {
+				return 1, 1, true
+			}
+			return 2, 2, true
+		}
+		switch suf {
+		case "b":
+			return 1, 1, true
+		case "w":
+			return 2, 2, true
+		case "l":
+			return 4, 4, true
+		case "q":
+			return 8, 8, true
+		case "":
+			if g := gprRe.FindStringSubmatch(data); g != nil {
+				if n := gprSize(g[1]); n != 0 {
+					return n, n, true
+				}
+			}
+		}
+	}
+	return 1, 1, false
+}
+
+func gprSize(r string) int {
+	switch r {
+	case "rax", "rbx", "rcx", "rdx", "rsi", "rdi", "rbp", "rsp":
+		return 8
+	case "eax", "ebx", "ecx", "edx", "esi", "edi", "ebp", "esp":
+		return 4
+	case "ax", "bx", "cx", "dx", "si", "di", "bp", "sp":
+		return 2
+	case "al", "bl", "cl", "dl", "ah", "bh", "ch", "dh", "sil", "dil", "bpl", "spl":
+		return 1
+	}
+	if strings.HasPrefix(r, "r") {
+		switch {
+		case strings.HasSuffix(r, "d"):
+			return 4
+		case strings.HasSuffix(r, "w"):
+			return 2
+		case strings.HasSuffix(r, "b"):
+			return 1
+		default:
+			return 8
+		}
+	}
+	return 0
 }
 
 func reg(r *syscall.PtraceRegs, name string) (uint64, bool) {
@@ -199,6 +333,7 @@ func main() {
 	bin := flag.String("bin", "", "child binary")
 	planPath := flag.String("plan", "", "plan JSON")
 	outPath := flag.String("out", "", "result JSON")
+	bounds := flag.Bool("bounds", false, "check every memory access of the traced routines against the ranges the child announces through sm4.verifC11Mark")
 	flag.Parse()
 	runtime.LockOSThread()
 	var plan []planEntry
@@ -230,6 +365,28 @@ func main() {
 				si := &symInfo{name: w, start: s.Value, end: s.Value + s.Size}
 				syms[w] = si
 			}
+		}
+	}
+	var markAddr uint64
+	koff := 0
+	var static []memRange // the binary's own static data (constant tables of the assembly live there)
+	if *bounds {
+		for _, sec := range ef.Sections {
+			if sec.Flags&elf.SHF_ALLOC != 0 && sec.Flags&elf.SHF_EXECINSTR == 0 && sec.Size > 0 {
+				static = append(static, memRange{addr: sec.Addr, n: sec.Size, name: sec.Name})
+			}
+		}
+		for _, s := range esyms {
+			if strings.HasSuffix(s.Name, "/sm4.verifC11Mark") {
+				markAddr = s.Value
+			}
+		}
+		if markAddr == 0 {
+			fatal("symbol sm4.verifC11Mark not found in %s", *bin)
+		}
+		var err error
+		if koff, err = opmaskOffset(); err != nil {
+			fatal("%v", err)
 		}
 	}
 	for w := range want {
@@ -276,6 +433,21 @@ func main() {
 	}
 	for a := range byAddr {
 		setBP(a)
+	}
+	if *bounds {
+		setBP(markAddr)
+	}
+	var allowed []memRange
+	var announced bool
+	var violations []boundsViolation
+	checked, maskedSeen := 0, 0
+	unjudged := map[string]bool{}
+	peek := func(tid int, addr uint64, n int) []byte {
+		b := make([]byte, n)
+		if _, err := syscall.PtracePeekData(tid, uintptr(addr), b); err != nil {
+			fatal("peek data %#x: %v", addr, err)
+		}
+		return b
 	}
 	groups := map[string]*groupState{}
 	var order []string
@@ -330,6 +502,55 @@ func main() {
 		if err := syscall.PtraceGetRegs(tid, &regs); err != nil {
 			fatal("getregs: %v", err)
 		}
+		if *bounds && regs.Rip-1 == markAddr {
+			// the child announces the ranges the next traced call may touch: RAX = table of (addr,len) pairs, RBX = count
+			n := int(regs.Rbx)
+			if n < 0 || n > 64 {
+				fatal("verifC11Mark called with count %d", n)
+			}
+			raw := peek(tid, regs.Rax, 16*n)
+			allowed = allowed[:0]
+			for i := 0; i < n; i++ {
+				var a, l uint64
+				for j := 7; j >= 0; j-- {
+					a = a<<8 | uint64(raw[16*i+j])
+					l = l<<8 | uint64(raw[16*i+8+j])
+				}
+				allowed = append(allowed, memRange{addr: a, n: l})
+			}
+			announced = true
+			// step over the breakpoint: restore the byte, single-step, re-arm
+			regs.Rip--
+			if err := syscall.PtraceSetRegs(tid, &regs); err != nil {
+				fatal("setregs: %v", err)
+			}
+			clearBP(markAddr)
+			if err := syscall.PtraceSingleStep(tid); err != nil {
+				fatal("singlestep: %v", err)
+			}
+			for {
+				t2, s2 := waitAny()
+				if t2 == tid {
+					break
+				}
+				if s2.Stopped() {
+					sg := s2.StopSignal()
+					if !alive[t2] {
+						alive[t2] = true
+						cont(t2, 0)
+					} else if sg == syscall.SIGTRAP {
+						cont(t2, 0)
+					} else {
+						cont(t2, int(sg))
+					}
+				} else if s2.Exited() || s2.Signaled() {
+					delete(alive, t2)
+				}
+			}
+			setBP(markAddr)
+			cont(tid, 0)
+			continue
+		}
 		si, ok := byAddr[regs.Rip-1]
 		if !ok {
 			cont(tid, 0) // a trap that is not ours
@@ -342,6 +563,18 @@ func main() {
 		next++
 		if entry.Routine != si.name {
 			fatal("plan entry %d expects %s but the child called %s", next-1, entry.Routine, si.name)
+		}
+		if *bounds {
+			if !announced {
+				fatal("call %d (%s) was not preceded by verifC11Mark", next-1, si.name)
+			}
+			announced = false
+			for i := range allowed {
+				allowed[i].name = fmt.Sprintf("range#%d", i)
+				if i < len(entry.RangeNames) {
+					allowed[i].name = entry.RangeNames[i]
+				}
+			}
 		}
 		// step through the routine
 		regs.Rip--
@@ -375,6 +608,68 @@ func main() {
 					fatal("cannot evaluate operand of %q", in.text)
 				}
 				ea := b + x*m.scale + uint64(m.disp)
+				if *bounds {
+					lo, hi := ea, ea+uint64(m.size)
+					if !m.known {
+						unjudged[strings.Fields(in.text)[0]] = true
+					}
+					skip := false
+					if m.mask >= 0 {
+						maskedSeen++
+						kv, err := readOpmask(tid, koff, m.mask)
+						if err != nil {
+							fatal("%v", err)
+						}
+						lanes := m.size / m.elem
+						first, last := -1, -1
+						for l := 0; l < lanes; l++ {
+							if kv>>uint(l)&1 == 1 {
+								if first < 0 {
+									first = l
+								}
+								last = l
+							}
+						}
+						if first < 0 {
+							skip = true // no lane enabled: no access
+						} else {
+							lo, hi = ea+uint64(first*m.elem), ea+uint64((last+1)*m.elem)
+						}
+					}
+					// the routine's own frame and its stack arguments: from the current stack pointer up to a little above the entry one
+					if onStack := ea+8 >= regs.Rsp && ea < entryRsp+512; !skip && !onStack {
+						checked++
+						ok := false
+						for _, r := range static {
+							if lo >= r.addr && hi <= r.addr+r.n {
+								ok = true
+								break
+							}
+						}
+						for _, r := range allowed {
+							if lo >= r.addr && hi <= r.addr+r.n {
+								ok = true
+								break
+							}
+						}
+						if !ok && len(violations) < 20 {
+							where := "not near any announced range"
+							best := int64(1 << 62)
+							for _, r := range allowed {
+								for _, c := range []struct {
+									d int64
+									s string
+								}{{int64(hi) - int64(r.addr+r.n), "bytes past the end of"}, {int64(r.addr) - int64(lo), "bytes before the start of"}} {
+									if c.d > 0 && c.d < best && c.d < 4096 {
+										best = c.d
+										where = fmt.Sprintf("reaches %d %s %s (%d bytes at %#x)", c.d, c.s, r.name, r.n, r.addr)
+									}
+								}
+							}
+							violations = append(violations, boundsViolation{si.name, cur.rip, in.text, lo, int(hi - lo), where, entry.Label, next - 1})
+						}
+					}
+				}
 				// stack-relative addresses are normalised to the entry stack pointer
 				if d := int64(ea - entryRsp); d > -65536 && d < 65536 {
 					ea = uint64(d) | 1<<62
@@ -483,14 +778,18 @@ func main() {
 		Mismatch *mismatch `json:"mismatch,omitempty"`
 	}
 	res := struct {
-		Groups        []gout   `json:"groups"`
-		Calls         int      `json:"calls"`
-		PlanEntries   int      `json:"plan_entries"`
-		Steps         int      `json:"steps"`
-		ChildExit     int      `json:"child_exit"`
-		VectorIndexed []string `json:"vector_indexed_operands"`
-		Suppressed    int      `json:"signals_suppressed_while_stepping"`
-	}{Suppressed: suppressed, Calls: next, PlanEntries: len(plan), Steps: totalSteps, ChildExit: exitCode}
+		Groups        []gout            `json:"groups"`
+		Calls         int               `json:"calls"`
+		PlanEntries   int               `json:"plan_entries"`
+		Steps         int               `json:"steps"`
+		ChildExit     int               `json:"child_exit"`
+		VectorIndexed []string          `json:"vector_indexed_operands"`
+		Suppressed    int               `json:"signals_suppressed_while_stepping"`
+		Checked       int               `json:"accesses_checked"`
+		Masked        int               `json:"masked_accesses"`
+		Unjudged      []string          `json:"size_unknown_mnemonics"`
+		Violations    []boundsViolation `json:"bounds_violations"`
+	}{Checked: checked, Masked: maskedSeen, Violations: violations, Suppressed: suppressed, Calls: next, PlanEntries: len(plan), Steps: totalSteps, ChildExit: exitCode}
 	for _, k := range order {
 		g := groups[k]
 		res.Groups = append(res.Groups, gout{k, g.count, g.steps, g.Mismatch})
@@ -499,6 +798,10 @@ func main() {
 		res.VectorIndexed = append(res.VectorIndexed, k)
 	}
 	sort.Strings(res.VectorIndexed)
+	for k := range unjudged {
+		res.Unjudged = append(res.Unjudged, k)
+	}
+	sort.Strings(res.Unjudged)
 	b, _ := json.Marshal(res)
 	if err := os.WriteFile(*outPath, b, 0o644); err != nil {
 		fatal("%v", err)
